@@ -234,6 +234,11 @@ func monC02(c *Case, tr *Trace) []Violation {
 				}
 				if o.Code == CodeNil {
 					okRecvs++
+					if !respStreams(sp.Shape) && wantCode != 0 {
+						// a non-streaming response is read by ONE Recv (generated stubs call it once): it must report the
+						// handler's non-OK status even if the handler had sent a message first
+						add("status_swallowed", o.End, "rpc %d (%s): the single Recv of a non-streaming response returned a message and no error although the handler returned code %d", i, sp.Shape, wantCode)
+					}
 					continue
 				}
 				terminal = o
